@@ -417,6 +417,16 @@ def edges():
         out.append({'k': 'sat', 't': t})
     for p in (ksat(TMIN), PC67, 22.064e6, 1e5, 1e6, 0.1e6, 5e6):
         out.append({'k': 'tsat', 'p': p})
+    # states where a leading coefficient of the IAPWS-97 saturation quadratics vanishes (see C14): the two formulations are
+    # compared there as well, 1e-13 .. 1e-4 either side
+    from refs import if97_ref
+    T0, p0 = if97_ref.singular_saturation_states()
+    for dlt in (0.0, 1e-13, 1e-12, 1e-11, 1e-10, 1e-9, 1e-8, 1e-6, 1e-4):
+        for s in ((1,) if dlt == 0 else (1, -1)):
+            out.append({'k': 'sat', 't': T0 - 273.15 + s * dlt * 100.0})
+            out.append({'k': 'tsat', 'p': p0 * (1 + s * dlt)})
+            out.append({'k': 'sat', 't': if97_ref.tsat(p0 * (1 + s * dlt)) - 273.15})
+            out.append({'k': 'tsat', 'p': if97_ref.psat(T0 + s * dlt * 100.0)})
     for kind, t, p in sorted(PINNED): out.append({'k': kind, 't': t, 'p': p})
     for t in (TMIN, T13, 100.0, 300.0, 325.0, 340.0):
         lo = pliq_min(t)
@@ -541,6 +551,7 @@ def case_sat(R, T, I, t):
     if t <= TC97:
         with R.lib('IAPWS97.sat'):
             p97 = I.sat(t)
+        R.check(num(p97), 'novalue:IAPWS97.sat', 'IAPWS97.sat(%r) = %r on the saturation line' % (t, p97))
         if num(p97):
             tol = band_tol(CAL_SAT, t)[1]
             R.check(rel(p, p97) <= tol, 'diff:sat', 'IFC-67 sat(%r) = %r vs IAPWS-97 %r: rel %.4g > %.4g' % (t, p, p97, rel(p, p97), tol))
